@@ -67,7 +67,9 @@ Dom(op, pr, x) ==
     [] op = "to_le_bits" -> Fits(x[1], IF pr[1] = 0 THEN NumBits ELSE pr[1])
     [] op = "to_le_bytes" -> FitsBytes(x[1], pr[1])
     [] op = "bounded" -> Fits(x[1], pr[1])
-    [] op \in {"lower_than", "geq", "band", "bor", "bxor"} -> Fits(x[1], pr[1]) /\ Fits(x[2], pr[1])
+    \* (comparisons may be given two bounds, one per operand)
+    [] op \in {"lower_than", "geq"} -> Fits(x[1], pr[1]) /\ Fits(x[2], pr[Len(pr)])
+    [] op \in {"band", "bor", "bxor"} -> Fits(x[1], pr[1]) /\ Fits(x[2], pr[1])
     [] op \in {"lower_than_fixed", "bnot"} -> Fits(x[1], pr[1])
     [] op = "assert_lower_than_fixed" -> x[1] < pr[1]
     [] op = "range2" -> x[1] < pr[1] /\ x[1] < pr[2]
@@ -172,6 +174,9 @@ Scenarios ==
   \cup { [op |-> "from_le_bits", params |-> <<14>>, ins |-> Bits(a, 14)] : a \in {0, P - 1, P, P + 5, 16383} }
   \cup { [op |-> "bounded", params |-> <<n>>, ins |-> <<a>>] : n \in {1, 6, 8, 12}, a \in NatIn }
   \cup { [op |-> o, params |-> <<n>>, ins |-> <<p[1], p[2]>>] : o \in {"lower_than", "geq", "band", "bor", "bxor"}, n \in {6, 8}, p \in Pairs }
+  \* operands with different declared bounds, close and far apart, either order
+  \cup { [op |-> o, params |-> <<b[1], b[2]>>, ins |-> <<a, c>>] : o \in {"lower_than", "geq"}, b \in {<<3, 12>>, <<12, 3>>, <<8, 12>>, <<1, 12>>},
+           a \in {0, 1, 3, 7, 200, 4000}, c \in {0, 1, 5, 7, 255, 4095} }
   \cup { [op |-> "lower_than_fixed", params |-> <<8, c>>, ins |-> <<a>>] : c \in {0, 1, 100, 255}, a \in NatIn }
   \cup { [op |-> "bnot", params |-> <<n>>, ins |-> <<a>>] : n \in {1, 6, 8}, a \in NatIn }
   \cup { [op |-> "assert_lower_than_fixed", params |-> <<b>>, ins |-> <<a>>] : b \in {1, 2, 100, 128, 200, 256, 1000}, a \in NatIn \cup {99, 100, 199, 200} }
